@@ -25,6 +25,9 @@ def check(prog, ctx):
              '(iterator range [begin+lo, begin+hi) with lo <= i1+1 and hi >= i2+1)', 4)
     ctx.rule('C08.d', 'prefactor degree: every extremum returned scales like Interpolate: knot values are multiplied by the prefactor and the '
              'min/max selection is exchanged for a negative prefactor', 4)
+    ctx.rule('C08.g', 'no cancellation in the stem function: the integration limit enters the per-segment stem function G only as the offset from the '
+             'segment\'s knot, (xi - X(j)); a term in the bare limit makes G(right) - G(left) the difference of two numbers of the size of the '
+             'abscissa, so the result depends on where the table lies on the axis (relative error eps |x| / (right - left))', 1)
     ctx.rule('C08.f', 'the integral and extremum queries are functions of the table, the prefactor and their arguments only: every field they '
              'read (transitively) is written at construction time only, or is the prefactor (written by its two setters), or belongs to the '
              'search cache used through Locate; any other field is history-carrying state', 8)
@@ -131,6 +134,38 @@ def integrate(prog, ctx, roles):
     ctx.decide('C08.a', 'Integrate:antiderivative', fn, z, 'dG/dxi equals the Interpolate term of segment j=i1+i',
                'dG/dxi differs from the interpolant on the segment', witness={'residual': str(sp.factor(sp.expand(resid)))[:300]},
                line=loop['l'], form=str(G))
+    # C08.g: the form in which G is evaluated (not its value): with xi = X(j) + u every term that depends on u must be free of X(j)
+    u_ = Symbol('u_', real=True)
+    Xj = Xf(jexpr)
+    Gu = G.subs(xi, Xj + u_)
+    terms = sp.Add.make_args(Gu)
+    bare = []
+    for t_ in terms:
+        # the prefactor and other common factors multiply the sum: look inside products for sums, too
+        inner = [t_]
+        while inner:
+            w_ = inner.pop()
+            if isinstance(w_, sp.Mul) and any(isinstance(f_, sp.Add) and f_.has(u_) for f_ in w_.args):
+                for f_ in w_.args:
+                    if isinstance(f_, sp.Add) and f_.has(u_):
+                        for q_ in f_.args:
+                            if q_.has(u_) and q_.has(Xj):
+                                bare.append(q_)
+                            elif isinstance(q_, sp.Mul):
+                                inner.append(q_)
+                        if f_.has(Xj) and f_.has(u_) and not any(q_.has(u_) and q_.has(Xj) for q_ in f_.args) and any(q_.has(Xj) and not q_.has(u_) for q_ in f_.args):
+                            bare.append(f_)
+            elif w_.has(u_) and w_.has(Xj):
+                bare.append(w_)
+    if not G.has(xi):
+        ctx.undecided('C08.g', 'Integrate:offset-form', fn, 'stem function does not depend on the limit', line=loop['l'])
+    else:
+        ctx.decide('C08.g', 'Integrate:offset-form', fn, not bare, 'the limit enters the stem function only as its offset from the knot X(j)',
+                   'the stem function contains the bare limit: with xi = X(j) + u the term(s) %s depend on the position X(j) of the segment on the axis, so '
+                   'G(right) - G(left) subtracts two numbers of the size of the abscissa' % [str(b_)[:80] for b_ in bare[:2]],
+                   witness={'terms': [str(b_)[:120] for b_ in bare[:3]],
+                            'reproducer': 'x = 1e9 + {0..5}, y = 0.7 + 0.01 k^2: Integrate(x0+2.25, x0+2.25+1/1024) = 7.33018e-4, below min(f) * length = 7.33032e-4 (the same table at x0 = 0 gives 7.33054e-4)'} if bare else None,
+                   line=loop['l'])
     # result = sign * integral on both orientations
     FIN = Symbol('integral_final', real=True)
     res = []
